@@ -11,8 +11,7 @@ open MongoModel MongoModel.Spec
 
 /-- remove the documents satisfying `P` (what one `_expire_documents(index)` does) -/
 def filt (P : Val → Bool) (c : Coll) : Coll :=
-  { c with docs := c.docs.filter (fun p => !P p.2),
-           od := c.od.filter (fun k => !(c.docs.any (fun p => P p.2 && pyEq p.1 k))) }
+  { c with docs := c.docs.filter (fun p => !P p.2) }
 
 /-- the predicate an index expires by; depends on the index only -/
 def ixPred (now : Int) (ix : Index) : R (Val → Bool) :=
@@ -32,12 +31,7 @@ theorem filt_clean (P : Val → Bool) (c : Coll) (h : ∀ p ∈ c.docs, P p.2 = 
     filt P c = c := by
   have h1 : c.docs.filter (fun p => !P p.2) = c.docs := by
     rw [List.filter_eq_self]; intro p hp; simp [h p hp]
-  have h2 : c.od.filter (fun k => !(c.docs.any (fun p => P p.2 && pyEq p.1 k))) = c.od := by
-    rw [List.filter_eq_self]; intro k _
-    have : c.docs.any (fun p => P p.2 && pyEq p.1 k) = false := by
-      rw [List.any_eq_false]; intro p hp; simp [h p hp]
-    simp [this]
-  unfold filt; rw [h1, h2]
+  unfold filt; rw [h1]
 
 theorem filt_false (c : Coll) : filt (fun _ => false) c = c :=
   filt_clean _ c (fun _ _ => rfl)
